@@ -434,7 +434,7 @@ def r5(R):
 
 @rule('C08.R6', 'the packer decides that it has caught up from a read of the '
       'data file made while it holds the commit lock, after the last time it '
-      'let commits through', min_instances=1)
+      'let commits through', props=['C07'], min_instances=1)
 def r6(R):
     cls = R.prog.cls(PACKER)
     f = R.method(cls, 'pack')
